@@ -354,6 +354,61 @@ func c11CheckClean(name string, ents []sstEntry, dir string, res *fw.Result, uni
 			break
 		}
 	}
+	// the same reader used non-monotonically: lookups that go back and forth between the ends of the table, an
+	// iterator that keeps going while lookups and a second iterator work elsewhere in the file
+	{
+		n := len(ents)
+		stride := 1
+		if n > 300 {
+			stride = n / 150
+		}
+		getOK := func(e sstEntry, ctx string) bool {
+			v, err := r.Get(e.Key)
+			res.Evaluations++
+			if err != nil {
+				viol("get-missing", fmt.Sprintf("%s: Get(%q) -> %v; key was written (and found earlier on the same reader)", ctx, clip(e.Key), err))
+				return false
+			}
+			if e.Tomb && v != nil || !e.Tomb && (v == nil || !bytes.Equal(v, e.Val)) {
+				viol("get-wrong", fmt.Sprintf("%s: Get(%q) -> %q (nil=%v), written %v", ctx, clip(e.Key), clip(v), v == nil, e))
+				return false
+			}
+			return true
+		}
+		ok := true
+		for i := 0; i < n && ok; i += stride {
+			ok = getOK(ents[i], "alternating lookups") && getOK(ents[n-1-i], "alternating lookups")
+		}
+		it1 := r.NewIterator()
+		it1.SeekToFirst()
+		it2 := r.NewIterator()
+		mid := n / 2
+		it2.Seek(ents[mid].Key)
+		j := mid
+		for i := 0; i < n && ok; i++ {
+			if !it1.Valid() || !bytes.Equal(it1.Key(), ents[i].Key) || it1.IsTombstone() != ents[i].Tomb || (!ents[i].Tomb && !bytes.Equal(it1.Value(), ents[i].Val)) {
+				viol("interleaved-iteration", fmt.Sprintf("an iterator interleaved with lookups and a second iterator on the same reader: step %d yields valid=%v key=%q, expected %v", i, it1.Valid(), clip(it1.Key()), ents[i]))
+				ok = false
+				break
+			}
+			if i%stride == 0 {
+				ok = getOK(ents[(i+n/2)%n], "lookup during an iteration") && getOK(ents[n-1-i%n], "lookup during an iteration")
+				if j < n {
+					if !it2.Valid() || !bytes.Equal(it2.Key(), ents[j].Key) {
+						viol("interleaved-iteration", fmt.Sprintf("second iterator (started at entry %d) on the same reader: yields valid=%v key=%q, expected %v", mid, it2.Valid(), clip(it2.Key()), ents[j]))
+						ok = false
+						break
+					}
+					it2.Next()
+					j++
+				}
+			}
+			it1.Next()
+		}
+		if ok && it1.Valid() {
+			viol("interleaved-iteration", fmt.Sprintf("the interleaved iterator yields %q after the last entry", clip(it1.Key())))
+		}
+	}
 	for _, t := range c11Targets(ents) {
 		isKey := false
 		for _, e := range ents {
@@ -553,7 +608,7 @@ func init() {
 	fw.Register(&fw.Check{
 		ID:    "C11",
 		Level: "exploration",
-		Rule: "entry sets: n in {1,2,15,16,17,18,31,32,33,40} x {plain, alternating / restart-edge tombstones, empty values}, all tombstone masks for n<=4 (6 thorough), prefix/binary keys, long shared prefixes, keys of 65535 and 65534 bytes (the format limit) stored prefix-compressed, 2/3(/5)-block tables, dense tables of 1024/1025/1040/1041/3500 six-byte entries (one block far beyond 1024 entries / 65 restart points; thorough adds 1023..7000 and a 1100-block table); for each: forward iteration (from SeekToFirst, and by Next alone on a fresh iterator), Seek to every key / successor / predecessor / both ends followed by iteration to the end, SeekToLast, Get of every key and every non-key target. " +
+		Rule: "entry sets: n in {1,2,15,16,17,18,31,32,33,40} x {plain, alternating / restart-edge tombstones, empty values}, all tombstone masks for n<=4 (6 thorough), prefix/binary keys, long shared prefixes, keys of 65535 and 65534 bytes (the format limit) stored prefix-compressed, 2/3(/5)-block tables, dense tables of 1024/1025/1040/1041/3500 six-byte entries (one block far beyond 1024 entries / 65 restart points; thorough adds 1023..7000 and a 1100-block table); for each: forward iteration (from SeekToFirst, and by Next alone on a fresh iterator), Seek to every key / successor / predecessor / both ends followed by iteration to the end, SeekToLast, Get of every key and every non-key target, then the same reader used non-monotonically (lookups alternating between both ends of the table, an iterator that keeps going while lookups and a second iterator work elsewhere in the file). " +
 			"Damage: every byte (files <= 8 KiB; head, 251-stride (every byte in the thorough tier) and last 6 KiB for larger) x {^0x01, ^0x80, 0xFF}: open+iterate+get must fail or yield only written entries. Non-trivial = tables with >1 entry / damaged opens that were evaluated to the end",
 		Assumptions: []string{"key/value sizes up to 20 KiB values and 302-byte keys; single-byte damage only"},
 		Units: func(tier string) []string {
